@@ -64,7 +64,7 @@ def run_domain(ctx, rng, w, actions, max_calls, bits, thorough):
             ctx.count("cases")
             b = model.binding(act_m, call)
             states, exhaustive = gen.covering_states(rng, wm, w, [(act_m.pre, b)], max_exhaustive_bits=bits,
-                                                     n_random=16 if thorough else 8, n_boundary=2)
+                                                     n_random=16 if thorough else 8, n_boundary=2, cross_cap=24)
             if exhaustive:
                 ctx.count("exhaustive_blocks")
             try:
@@ -169,12 +169,12 @@ def run(ctx):
     thorough = ctx.tier == "thorough"
     params_sweep = [("?x", "t0"), ("?y", "t0")]
     # ---- random formulas -----------------------------------------------------------------
-    n_domains = 30 if thorough else 6
+    n_domains = 14 if thorough else 6
     for d in range(n_domains):
         w = gen.gen_world(rng)
         acts = [(gen.gen_params(rng, w), None if d == 0 else ["and"])]  # '()' and '(and)' are always present
         acts[0] = (acts[0][0], [] if d % 2 == 0 else ["and"])
-        for _ in range(8 if thorough else 4):
+        for _ in range(6 if thorough else 4):
             params = gen.gen_params(rng, w)
             pre = gen.gen_formula(rng, w, params, depth=rng.choice([1, 2, 3]), width=3,
                                   use_constants=0.15, allow_repeat=False)
@@ -182,7 +182,7 @@ def run(ctx):
         run_domain(ctx, rng, w, acts, max_calls=6 if thorough else 4, bits=7, thorough=thorough)
     # ---- bounded sweep over the small vocabulary (sampled in quick, complete in thorough) ---
     srng = ctx.rng("sweep-formulas-shared") if False else __import__("random").Random(ctx.seed * 7919 + 17)
-    fs = sweep_formulas(srng, 5000 if thorough else 0)
+    fs = sweep_formulas(srng, 2500 if thorough else 0)
     mine = [f for j, f in enumerate(fs) if j % ctx.nshards == ctx.shard]
     if not thorough:
         mine = rng.sample(mine, min(len(mine), 12))
